@@ -124,10 +124,67 @@ def harness(tier, seed):
                         viol.append(("instance/flow-monotone", info, f"row {i}: nearer neighbour has smaller flow {Fm[i, c]} < {Fm[i, j]}"))
         if len(samples) < 2:
             samples.append({**info, "n": n, "flows": Fm.tolist()})
+    # ---- instances whose size sits at the boundaries of the integer storage types (n - 1 and n around 127 / 128 / 255 / 256)
+    big = [127, 128, 129, 255, 256, 257] if tier == "quick" else [100, 127, 128, 129, 130, 200, 255, 256, 257, 300, 513]
+    for n in big:
+        vals = rng.sample(range(-5 * n, 5 * n), n)
+        data = list(vals) + [rng.choice(vals) for _ in range(7)]
+        rng.shuffle(data)
+        horizon = rng.choice([1, 3, n // 2, 10 * n])
+        power = rng.choice([1, 2])
+        info = {"n_distinct": n, "data_head": data[:12], "distance": "abs", "flow_power": power, "horizon": horizon, "seed": seed}
+        reps_, where, pos = [], [], {}
+        for v in data:
+            if v not in pos:
+                pos[v] = len(reps_)
+                reps_.append(v)
+            where.append(pos[v])
+        try:
+            inst = Instance.from_sequence_and_distance(list(data), lambda a, b: abs(a - b), power, horizon, ("t",), lambda o: f"x{o}")
+        except Exception as ex:
+            viol.append(("instance/raises", info, repr(ex)))
+            continue
+        evals += 1
+        distinct += 1
+        if inst.n != n:
+            viol.append(("instance/merge-zero-distance", info, f"n={inst.n}, expected {n} representatives"))
+            continue
+        got_map = sorted((t[0][0], t[1]) for t in inst.tags)
+        want_map = sorted((f"x{v}", w) for v, w in zip(data, where))
+        if got_map != want_map:
+            viol.append(("instance/representative-index", info, "tags differ from the representative indices (large instance)"))
+        D = np.array(inst.distances).astype(object)
+        ar = np.arange(n)
+        want = np.abs(ar[:, None] - ar[None, :]).astype(object)
+        if D.shape != (n, n) or not (D == want).all():
+            bad = np.argwhere(D != want)[0] if D.shape == (n, n) else None
+            viol.append(("instance/position-distance", info, f"distances differ from |i-j|, first at {None if bad is None else bad.tolist()}: "
+                         f"{None if bad is None else D[bad[0], bad[1]]}"))
+        Fm = np.array(inst.flows).astype(object)
+        R = np.array(reps_, dtype=object)
+        for i in range(n):
+            if Fm[i, i] != 0:
+                viol.append(("instance/flow-diagonal", info, f"flows[{i},{i}]={Fm[i, i]}"))
+                break
+            ds = np.abs(np.array([int(v) - int(R[i]) for v in R]))
+            order = [j for j in np.argsort(ds, kind="stable").tolist() if j != i]
+            for a, b in zip(order, order[1:]):      # consecutive in distance order: transitivity gives all pairs
+                if ds[a] == ds[b] and Fm[i, a] != Fm[i, b]:
+                    viol.append(("instance/flow-ties-equal", info, f"row {i}: equal distances, flows {Fm[i, a]} vs {Fm[i, b]}"))
+                if ds[a] < ds[b] and Fm[i, a] < Fm[i, b]:
+                    viol.append(("instance/flow-monotone", info, f"row {i}: nearer neighbour has smaller flow {Fm[i, a]} < {Fm[i, b]}"))
+            for r_, j in enumerate(order):
+                less = int((ds < ds[j]).sum())
+                ties = int((ds == ds[j]).sum())
+                f_rank = less + (ties + 1) / 2.0 - 1.0
+                if f_rank > horizon and Fm[i, j] != 0:
+                    viol.append(("instance/flow-beyond-horizon", info, f"flows[{i},{j}]={Fm[i, j]} at rank {f_rank} > {horizon}"))
+                    break
     seen = set()
     viol = [v for v in viol if not (v[0] in seen or seen.add(v[0]))]
     return {"name": "order1d", "evaluations": evals, "distinct_nontrivial": distinct,
             "rule": f"swap_distance vs breadth-first minimum number of transpositions for ALL permutations of length 1..{nmax} "
                     "(exhaustive against the identity, relabelled pairs sampled); generated integer sequences with duplicates/ties "
-                    "x 3 distance functions x flow powers x horizons for the instance clauses",
+                    "x 3 distance functions x flow powers x horizons for the instance clauses; "
+                    "instances with 127..257 distinct objects (storage-type boundaries) for the same clauses",
             "samples": samples, "violations": viol, "exhaustive": True}
